@@ -7,6 +7,11 @@ From Verif.Proofs Require Import C02a C02b C03.
 Import ListNotations.
 Local Open Scope N_scope.
 
+(* every (phase, tag name) -> handler entry of html5parser.py is the one the model of tree construction (C01's TC)
+   was written against; the run against the implementation below then covers every entry *)
+Theorem c03_dispatch_tables_are_the_fixed_copy : Verif.Gen.Phases.dispatch = Verif.Spec.Dispatch.dispatch_spec.
+Proof. exact dispatch_is_the_fixed_copy. Qed.
+
 (* TERMINATION, tokenizer half: the tokenizer's main loop ends for every input, from every state (C02) *)
 Theorem c03_tokenizer_terminates : forall s c t cd i, tokenize s c t cd i <> None.
 Proof. exact tokenize_total. Qed.
